@@ -776,3 +776,14 @@ def check_fill_sample(rep, fl, fs):
                 break
         else:
             rep.ok("R07.3", fl, fs, "return condition@bb%d" % rbi if False else "return condition", "returns only when len >= samples or key_costs is exhausted")
+
+
+def check_C07_fastpath(rep, fl):
+    """Only the `room available => admit, evict nothing` instances of C07 (shared with C04)."""
+    from framework import Report
+    tmp = Report(rep.prop, rep.tier)
+    check_C07(tmp, fl)
+    for i in tmp.instances:
+        if i.rule in ("R07.1", "R07.2"):
+            i.rule = "R04.2" if i.rule == "R07.1" else i.rule
+            rep.instances.append(i)
